@@ -266,6 +266,7 @@ def judge(frame):
         node, why = _strict(it)
         if node is None:
             out["why"] = why
+            out["bad_op"] = _frame_operation(it)     # the item whose bytes are not well-formed
             return out
     out["trailing"] = bool(rest) or len(kids) > 1 + need
     out["ok"] = True
@@ -873,7 +874,7 @@ def check_frames(stream, obs, tail_off, B, info):
         if lenient:
             cls = _lenient_class(J["why"])
             if cls == "undecodable-bytes-inside-structure":
-                cls += "|op=" + _frame_operation(fr)
+                cls += "|op=" + (J.get("bad_op") or _frame_operation(fr))
             add("C12|malformed-accepted|" + cls,
                 "the library decoded (and the session processed) a frame that is not well-formed "
                 "TTLV: %s; store changed: %s; answer %s\n%s"
